@@ -97,7 +97,7 @@ impl Prop for C03 {
         true
     }
     fn case_time_limit(&self) -> u64 {
-        240
+        480
     }
     fn setup(&self, _tier: Tier) -> Result<(), String> {
         shim::install().map(|_| ())
